@@ -763,11 +763,18 @@ func (e *Engine) computeAssignedFields() {
 
 // havocAll forgets everything about the heap and the ghost state (a callee with an unchecked frame ran),
 // except fields that are never assigned after construction anywhere in the loaded packages.
+// localLogKey: the call logs kept by `option calllog` / `option fvlog` belong to the function under
+// verification (they record the calls written in its own body): callees do not change them and they are not
+// part of any frame.
+func localLogKey(k string) bool {
+	return k == "ghost:callN" || k == "ghost:callName" || k == "ghost:callArg0" || k == "ghost:callArg1" || k == "ghost:fvN" || k == "ghost:fvName"
+}
+
 func (e *Engine) havocAll(st *State) {
 	al := st.heap["$alloc"]
 	keep := map[string]*Term{}
 	for k, v := range st.heap {
-		if !strings.HasPrefix(k, "ghost:") && !strings.HasPrefix(k, "global:") && !strings.HasPrefix(k, "box$") && !strings.HasPrefix(k, "cell:") && k != "$alloc" && !e.assignedFields[k] {
+		if localLogKey(k) || (!strings.HasPrefix(k, "ghost:") && !strings.HasPrefix(k, "global:") && !strings.HasPrefix(k, "box$") && !strings.HasPrefix(k, "cell:") && k != "$alloc" && !e.assignedFields[k]) {
 			keep[k] = v
 		}
 	}
